@@ -5,11 +5,31 @@ import json
 ALL = ["C%02d" % i for i in range(1, 20)]
 # id -> (category, technique, text, note, design_ref)
 CHECKS = {
+ "C03": ("exploration",
+         "property-based testing (proptest) over generated programs with an executable AIR oracle: every transition constraint and boundary assertion evaluated on the honest trace",
+         "Programs from the full generator (all instruction classes, control flow, procedures, call/syscall/dyn, kernels, memory, locals, advice) are executed honestly under generated expected-cycle hints; the main segment and the auxiliary segment built for 16 generated challenges (base, quadratic and cubic extension) are checked against every main/aux transition constraint on every non-exempt row and every boundary assertion of ProcessorAir instantiated with the caller's inputs and the reported outputs; the trace-length rule is recomputed (power of two, >= 64, accommodates cycles counted from the decoder columns, range table, chiplet rows, plus the random row) and the main segment is compared across hints. Held on everything explored.",
+         "Trusted: winterfell's Air trait plumbing (evaluate_transition etc. are the code under test), the generator/model for producing succeeding programs, proptest. A consistency relation between processor and AIR: a change weakening both sides in step is C04's/C05's job.",
+         "DESIGN.md sec. 3 C03"),
  "C05": ("exploration",
          "model-based differential property testing (proptest): generated straight-line programs vs a from-the-docs instruction-level reference interpreter",
          "Generated instruction sequences (every field/comparison/ext2/u32/stack/push/env instruction, immediate forms, boundary operands, initial depth 0..40) are assembled and executed; the complete final stack (and, where the documentation fixes it, the exact depth) must equal the reference model's; documented failures must fail (assertions with their error code), undocumented ones must not; panics are violations. Held-on-everything-explored, not absence.",
          "Trusted: the reference model transcribed from docs/src/user_docs/assembly, miden-crypto/winter-math from the registry, proptest. Instructions the docs call 'undefined' on an operand class are kept out of that class by construction.",
          "DESIGN.md sec. 3 C05"),
+ "C06": ("exploration",
+         "model-based differential + metamorphic property testing (proptest) over generated nestings of if/while/repeat/exec; enumeration of non-binary condition values at every decision point",
+         "Generated nestings (depth <= 4) of if/else, while (advice-, memory-counter- and constant-controlled, 0..5 iterations), repeat and exec with locals are compared with the reference model (final stack, documented failures); model-free metamorphic variants (repeat unrolled textually, exec bodies pasted at the call site) must give the same result; non-binary values at if, loop entry, loop re-check (first and later iterations, nested) must fail, never panic. Run in both build flavours.",
+         "Trusted: reference model from flow_control.md / code_organization.md, proptest.",
+         "DESIGN.md sec. 3 C06"),
+ "C07": ("exploration",
+         "model-based differential property testing (proptest) over generated call graphs with a per-context memory model; history invariants recomputed from the memory-chiplet and system columns of the trace; enumerated error paths",
+         "Generated call graphs (exec/call/syscall against generated kernels/dynexec/dyncall, locals, caller) doing element/word/stream/pipe/local loads and stores over a colliding address pool are compared with the per-context reference model on the final stack, the final memory of every context and failures; from the trace: every memory read returns the last write to (ctx, addr) or zeros, element stores change only element 0, after every CALL/SYSCALL..END ctx/fmp/fn-hash/depth/overflow-address are restored, callee starts at depth 16 in a fresh (or the root) context with the documented locals base; enumerated: depth != 16 on return, syscall target not in kernel, caller outside syscall, addresses >= 2^32 incl. both addresses of mem_stream/adv_pipe. Both build flavours.",
+         "Trusted: reference model from execution_contexts.md / io_operations.md; locals are compared only after being written in the same frame activation; processor `internals` feature for reading final memory. Known finding: caller after dyncall (known_findings.json).",
+         "DESIGN.md sec. 3 C07"),
+ "C12": ("exploration",
+         "property-based testing (proptest) over generated programs: terminal-value oracle for every auxiliary running-product/sum column under generated challenges",
+         "Programs biased to chiplet traffic (hperm/hash/hmerge, u32 bitwise, every memory instruction incl. mem_stream/adv_pipe, multi-batch spans, every control block, call/syscall with kernels, dynexec/dyncall) are executed and the auxiliary segment is built for 16 generated challenges; block stack (p1), block hash (p2, initial value = program-hash row), op group (p3), chiplets bus and chiplets virtual table (= product of kernel procedure rows) must start and end at their specified values; the stack overflow table and b_range terminals are boundary assertions checked in C03.",
+         "Oracle A only (terminal values); the challenge-free recount of requests/responses (oracle B of DESIGN.md) is not built yet. Specified values from docs/src/design/{decoder,chiplets,lookups}.",
+         "DESIGN.md sec. 3 C12"),
 }
 NOT_BUILT = "check not built yet in this session (see DESIGN.md sec. 6b staging); will be claimed when its machinery exists"
 
